@@ -127,6 +127,7 @@ type ContractSet struct {
 	Lemmas      []*Axiom
 	Files       []string
 	Raw         []string // all //@ lines, for the assumption scan
+	SMTGroup    []string // per SMT command: symbol whose presence in a query makes the command relevant ("" = always)
 	SMT         []string // raw SMT-LIB commands (axioms of spec functions): part of the trusted base
 }
 
@@ -182,7 +183,15 @@ func (cs *ContractSet) ParseFile(path string) error {
 		fail := func(e error) error { return fmt.Errorf("%s:%d: %s %s: %v", path, d.line, d.kw, d.text, e) }
 		switch d.kw {
 		case "smt":
-			cs.SMT = append(cs.SMT, d.text)
+			// smt[sym] text : the axiom is included only in queries that mention sym
+			text, group := d.text, ""
+			if strings.HasPrefix(text, "[") {
+				if k := strings.Index(text, "]"); k > 0 {
+					group, text = strings.TrimSpace(text[1:k]), strings.TrimSpace(text[k+1:])
+				}
+			}
+			cs.SMT = append(cs.SMT, text)
+			cs.SMTGroup = append(cs.SMTGroup, group)
 		case "defpred":
 			// name(params) reads A.f, B.g = body   : a named SMT function with a defining axiom
 			depth, k := 0, -1
@@ -565,4 +574,20 @@ func exprString(fset *token.FileSet, e ast.Node) string {
 	var sb strings.Builder
 	_ = printerFprint(&sb, fset, e)
 	return normStmtText(sb.String())
+}
+
+// mkContract builds a contract from clause lines ("requires ...", "ensures ...", "modifies ...").
+func mkContract(key string, lines ...string) *FuncContract {
+	fc := &FuncContract{Key: key, LoopInv: map[int][]*Clause{}, LoopDec: map[int]*Clause{}}
+	for _, ln := range lines {
+		ln = strings.TrimSpace(ln)
+		kw := ln
+		if k := strings.IndexAny(ln, " \t[("); k >= 0 {
+			kw = ln[:k]
+		}
+		if err := fc.addClause(&rawDirective{kw: kw, text: strings.TrimSpace(ln[len(kw):])}, "builtin"); err != nil {
+			panic(fmt.Sprintf("mkContract %s: %q: %v", key, ln, err))
+		}
+	}
+	return fc
 }
